@@ -48,6 +48,18 @@ def chunksOf (size : Nat) : Nat → List Nat → List (List Nat)
 def parseStyledIOChunked (size : Nat) (clusterAt : Nat → Nat) (bs : List Nat) : Except Panic (List (Cell Str)) :=
   cellsOfIO {} (ParserIO.runChunks handTable clusterAt (chunksOf size bs.length bs))
 
+/-- `bufio`'s `defaultBufSize`: the size of the reader `ansi.NewParser` wraps around its argument. -/
+def defaultBufSize : Nat := 4096
+
+/-- `ParseStyledString(s)` with the reader **as the source builds it** (`Gen.SgrCases.parseStyledReader`, regenerated from
+    cell.go on every run): the whole string in one read, or reads of the default buffer size; `none` for a shape the
+    extractor does not know. -/
+def parseStyledSrc (clusterAt : Nat → Nat) (bs : List Nat) : Option (Except Panic (List (Cell Str))) :=
+  if VaxisModel.Gen.SgrCases.parseStyledReader = "whole-string" then some (parseStyledIO clusterAt bs)
+  else if VaxisModel.Gen.SgrCases.parseStyledReader = "default-buffer" then
+    some (parseStyledIOChunked defaultBufSize clusterAt bs)
+  else none
+
 /-- An item of `SgrBytes.scan` as ParserIO delivers it. -/
 def ioItem : Item → ParserIO.Item
   | .text g => .print g
